@@ -263,6 +263,7 @@ func main() {
 	}
 	genC01(repo, out) // property C01 (c01.go)
 	genC05(repo, out) // property C05 (c05.go)
+	genC10R(repo, out) // property C10, recovery slice: one pass of the metrics WAL timer loops (c10r.go)
 	// property C07: crash-point injection into the segment writer (crash.go)
 	genCrash(repo, out)
 	// property C11: pause points before the rotation steps (c11.go). MUST run after genCrash: it instruments the
